@@ -118,6 +118,10 @@ def jSimple (r : Option (String × List (Int × Num))) : Json :=
   | some (f, d) => Json.mkObj [("field", Json.str f),
       ("data", jList (fun (p : Int × Num) => Json.arr #[jInt p.1, jNum p.2]) d)]
 
+def jMeta (r : Option (List (String × List (Num × Num)))) : Json :=
+  jOpt (jList fun (fd : String × List (Num × Num)) =>
+    Json.arr #[Json.str fd.1, jList (fun (p : Num × Num) => Json.arr #[jNum p.1, jNum p.2]) fd.2]) r
+
 def optText (j : Json) (k : String) : R (Option String) :=
   match j.getObjVal? k with
   | .ok v => asOpt asStr v
@@ -219,7 +223,11 @@ def runC18 (op : String) (j : Json) : R Json := do
     pure (Json.mkObj [("text", Json.str (String.ofList text)),
                       ("back", jSimple (readTsvSimple text)),
                       ("expected", jSimple (some (field, (sortById data).map fun p => (p.1, obsS p.2)))),
-                      ("real_parsed", jOpt (fun (t : String) => jSimple (readTsvSimple t.toList)) real)])
+                      ("real_parsed", jOpt (fun (t : String) => jSimple (readTsvSimple t.toList)) real),
+                      -- the same file through `load_metadata` (cluster-table reader + regrouping)
+                      ("meta", jMeta (loadMetadata text)),
+                      ("meta_expected", jMeta (some (if data = [] then [] else
+                          [(field, (sortById data).map fun p => (Num.int p.1, obsS p.2))])))])
   | "json" =>
     let entries ← fld j "dict" >>= asArr
     let d ← entries.mapM fun e => do
